@@ -185,15 +185,248 @@ def _rand_c09(rng, tier, sc0):
 def C09(tier, seed):
     mc = [("MCFlw.tla", "MCFlw_C09q.cfg" if tier == "quick" else "MCFlw_C09t.cfg", 8, 2400)]
     gen = [("MCFlw.tla", "MCFlw_C09gen.cfg" if tier == "quick" else "MCFlw_C09gent.cfg", None, None)]
+    # one fixed-offset zone per shard (POSIX TZ strings need no tz database): UTC, +05:30, -04:00, +14:00, -07:59
+    zones = ["UTC", "IST-5:30", "VET4", "LINT-14", "DMO+07:59", "NPT-5:45"]
     return F.run("C09", tier, seed, mc=mc, gen=gen, rand_fn=_rand_c09, mon="MonC09",
-                 assumptions=A_COMMON + ["time zone of the harness process is UTC unless TZ is set (fixed-offset zones "
-                                         "only; DST zones are outside the property)"],
+                 shard_env=lambda i: {"TZ": zones[i % len(zones)]},
+                 assumptions=A_COMMON + ["harness shards run under the fixed-offset zones UTC, +05:30, -04:00, +14:00, "
+                                         "-07:59, +05:45 (the virtual clock is civil local time); DST zones are outside "
+                                         "the property"],
                  rule="(a) one maximal behaviour per distinct state of the bounded Flw model with age criterion: "
                       "T0 = Jan 15 23:59:58, clock steps {1s, 1h, 1d, 31d, 365d} so that second/minute/hour/day/month/"
                       "year boundaries and same-day-of-month / same-date-next-year instants occur, append restarts; "
                       "(b) seeded random histories from a boundary catalogue. distinct = distinct (cfg, step list) pairs")
 
 
-REGISTRY = {"C01": C01, "C06": C06, "C07": C07, "C08": C08, "C09": C09}
+def _post_c18(s):
+    """Reset steps of the model carry a model cfg: convert, and give every new family its own directory."""
+    nfam = 0
+    mode = {k: s["cfg"][k] for k in ("mode", "cap") if k in s["cfg"]}
+    for st in s["steps"]:
+        if st["op"] == "Reset":
+            nfam += 1
+            c = G.model_cfg_to_harness(st["cfg"], {"subdir": f"fam{nfam}", "basename": f"app{nfam}", "full": True})
+            c.update(mode)
+            st["cfg"] = c
+    return s
+
+
+def _rand_c18(rng, tier, sc0):
+    n = 200 if tier == "quick" else 4000
+    out = []
+    for i in range(n):
+        c = G.rand_cfg(rng, modes=("direct", "buf", "bufflush"))
+        c["crlf"] = False
+        if i % 4 == 0:
+            c = {"rot": False, "naming": "Num", "mode": c["mode"], "cap": c.get("cap", 64),
+                 "flush_ms": c.get("flush_ms", 0)}
+        if "size" in c:
+            c["size"] = rng.choice([20, 60, 500])
+        steps = [{"op": "Start", "append": rng.random() < 0.3}]
+        nfam = 0
+        for _ in range(rng.choice([4, 10, 25])):
+            x = rng.random()
+            if x < 0.12:
+                steps.append({"op": "ExtRename", "which": "cur"})
+                if rng.random() < 0.3:
+                    steps.append({"op": "Log", "len": rng.choice([9, 12, 30])})
+                steps.append({"op": "Reopen"})
+            elif x < 0.18:
+                steps.append({"op": "ExtRemove", "which": "cur"})
+                steps.append({"op": "Reopen"})
+            elif x < 0.26:
+                nfam += 1
+                c2 = G.rand_cfg(rng, modes=(c["mode"],))
+                c2["crlf"] = False
+                for k in ("mode", "cap", "flush_ms"):
+                    if k in c:
+                        c2[k] = c[k]
+                    else:
+                        c2.pop(k, None)
+                if rng.random() < 0.3:
+                    c2 = {"rot": False, "naming": "Num", **{k: c[k] for k in ("mode", "cap", "flush_ms") if k in c}}
+                c2.update({"subdir": f"fam{nfam}", "basename": f"app{nfam}", "full": True})
+                steps.append({"op": "Reset", "cfg": c2})
+            elif x < 0.32:
+                steps.append({"op": "Reopen"})
+            elif x < 0.4:
+                steps.append({"op": "Trigger"})
+            elif x < 0.48:
+                steps.append({"op": "Flush"})
+            elif x < 0.55:
+                steps.append({"op": "Adv", "dt": rng.choice([1, 60, 86400])})
+            steps.append({"op": "Log", "len": rng.choice([9, 10, 12, 21, 40, 100])})
+        steps.append({"op": "Stop"})
+        out.append({"sc": sc0 + i, "cfg": c, "t0": G.boundary_t0(rng), "steps": steps, "origin": "rand"})
+    return out
+
+
+def C18(tier, seed):
+    mc = [("MCFlw.tla", "MCFlw_C18q.cfg" if tier == "quick" else "MCFlw_C18t.cfg", 8, 2400)]
+    gen = [("MCFlw.tla", "MCFlw_C18gen.cfg" if tier == "quick" else "MCFlw_C18gent.cfg", None, None)]
+    return F.run("C18", tier, seed, mc=mc, gen=gen, rand_fn=_rand_c18, mon="MonC18", post_scen=_post_c18,
+                 assumptions=A_COMMON + ["after an external rename/removal of the current file the application calls "
+                                         "reopen_output() (records logged in between are attributed to the old file); "
+                                         "reset_flw switches to a family in another directory; synchronous write modes"],
+                 rule="(a) one maximal behaviour per distinct state of the bounded Flw model extended with ExtRenameCur/"
+                      "ExtRemoveCur/Reopen/Reset (up to 2-3 switches, with/without rotation, direct/buffered); "
+                      "(b) seeded random histories mixing writes, flushes, forced rotations with rename/remove+reopen "
+                      "and resets to other families / rotation settings. distinct = distinct (cfg, step list) pairs")
+
+
+SYM = {"a": "a", "b": "b", "n": "\n", "F": "F", "S": "S", "x": "x", "y": "y"}
+C15_MODES = [
+    {"mode": "direct"},
+    {"mode": "buf", "cap": 4},
+    {"mode": "buf", "cap": 64},
+    {"mode": "bufflush", "cap": 4, "flush_ms": 1},
+    {"mode": "async", "pool": 1, "mcapa": 2, "flush_ms": 0},
+    {"mode": "async", "pool": 4, "mcapa": 64, "flush_ms": 1},
+]
+
+
+def _c15_group(grp, base_cfg, steps, origin, sc0, tag=None):
+    out = []
+    ctrl = any(st.get("op") == "Chunk" and st.get("hex") in ("46", "53") for st in steps)
+    for j, m in enumerate(C15_MODES):
+        c = dict(base_cfg)
+        c.update(m)
+        c["via"] = "flw"
+        t = {"ctrl_chunk": ctrl}
+        if tag:
+            t.update(tag)
+        out.append({"sc": sc0 + j, "grp": grp, "cfg": c, "t0": 1000, "raw": True, "obs": "sync",
+                    "steps": [dict(s) for s in steps], "origin": origin, "tag": t})
+    return out
+
+
+def _c15_from_model(replays, sc0):
+    scens = []
+    grp = 0
+    for r in replays:
+        steps = [{"op": "Start", "append": False}]
+        for st in r["steps"]:
+            if st["op"] == "Chunk":
+                txt = "".join(SYM[x] for x in st["m"])
+                if len(txt) >= 2 and txt.endswith("\n"):
+                    steps.append({"op": "Log", "msg": txt[:-1], "len": len(txt)})
+                else:
+                    steps.append({"op": "Chunk", "hex": txt.encode().hex()})
+            elif st["op"] in ("Flush", "Trigger"):
+                steps.append({"op": st["op"]})
+            elif st["op"] == "Stop":
+                steps.append({"op": "Stop"})
+        if steps[-1]["op"] != "Stop":
+            steps.append({"op": "Stop"})
+        base = {"naming": "Num", "rot": r["cfg"]["size"] >= 0}
+        if r["cfg"]["size"] >= 0:
+            base["size"] = r["cfg"]["size"]
+        grp += 1
+        scens += _c15_group(grp, base, steps, "tlc:MCModes", sc0 + len(scens))
+    return scens
+
+
+def _rand_c15(rng, tier, sc0, grp0):
+    n = 60 if tier == "quick" else 1500
+    scens = []
+    for i in range(n):
+        base = {"naming": rng.choice(["Num", "NumD"]), "rot": rng.random() < 0.7}
+        if base["rot"]:
+            base["size"] = rng.choice([0, 3, 20, 100])
+        steps = [{"op": "Start", "append": False}]
+        for _ in range(rng.choice([3, 8, 20])):
+            x = rng.random()
+            if x < 0.5:
+                ln = rng.choice([1, 2, 5, 9, 30, 70, 300])
+                steps.append({"op": "Log", "len": ln})
+            elif x < 0.9:
+                kind = rng.random()
+                if kind < 0.25:
+                    b = bytes([rng.randrange(256)])
+                elif kind < 0.35:
+                    b = b""
+                elif kind < 0.45:
+                    b = rng.choice([b"F", b"S", b"FS", b"F\n", b"SS"])
+                elif kind < 0.6:
+                    b = bytes(rng.randrange(256) for _ in range(rng.choice([2, 7, 65, 300])))
+                else:
+                    b = ("chunk%d" % rng.randrange(1000)).encode() + (b"\n" if rng.random() < 0.5 else b"")
+                steps.append({"op": "Chunk", "hex": b.hex()})
+            else:
+                steps.append({"op": "Flush"})
+        steps.append({"op": "Stop"})
+        scens += _c15_group(grp0 + i, base, steps, "rand", sc0 + len(scens))
+    return scens
+
+
+def C15(tier, seed):
+    import json
+    import os
+    import random
+    import shutil
+    import time
+    from . import common as C
+    t0 = time.time()
+    pid = "C15"
+    wd = C.workdir(pid)
+    try:
+        build_s = C.build_harness()
+        states = transitions = 0
+        mc_stats = []
+        for cfg in (["MCModes_q.cfg", "MCModes_qnorot.cfg"] if tier == "quick" else ["MCModes_t.cfg", "MCModes_qnorot.cfg"]):
+            r = C.run_tlc("MCModes.tla", os.path.join(C.SPEC, cfg), os.path.join(wd, "mc-" + cfg), workers=8, timeout=1800)
+            if r["violated"]:
+                raise C.ToolError(f"Modes/{cfg} violates {r['violated']} in the ideal configuration")
+            mc_stats.append({"cfg": cfg, "states": r["states"], "transitions": r["transitions"], "wall_s": r["wall_s"]})
+            states += r["states"]
+            transitions += r["transitions"]
+            C.log(f"[C15] TLC {cfg}: {r['states']} distinct states - ModeIndependent, SyncModesAgree, ShutdownCompletes hold "
+                  f"(intended design)")
+        # as-is configuration: every open deviation must show up as a counterexample (and is replayed below)
+        r = C.run_tlc("MCModes.tla", os.path.join(C.SPEC, "MCModes_asis.cfg"), os.path.join(wd, "mc-asis"), workers=1, timeout=600)
+        asis_violated = r["violated"]
+        C.log(f"[C15] TLC MCModes_asis.cfg (as coded): violated invariants: {asis_violated or 'none'}")
+        gcfg = "MCModes_gen.cfg" if tier == "quick" else "MCModes_gent.cfg"
+        r = C.run_tlc("MCModes.tla", os.path.join(C.SPEC, gcfg), os.path.join(wd, "gen"), workers=4, timeout=900)
+        reps = C.replay_lines(r)
+        states += r["states"]
+        transitions += r["transitions"]
+        scens = _c15_from_model(reps, 1)
+        n_model = len(scens)
+        rng = random.Random(seed)
+        scens += _rand_c15(rng, tier, len(scens) + 1, 1000000)
+        res = C.run_sharded(pid, "MonC15", scens, wd)
+        C.log(f"[C15] {len(reps)} histories from TLC + random, x {len(C15_MODES)} write modes = {res['scenarios']} executions / "
+              f"{res['events']} events; judged by MonC15.tla in {res['wall_s']}s; {len(res['bads'])} predicate failures; "
+              f"counters {res['counts']}")
+        viols, known = C.triage(pid, res["bads"], res["traces"], res["scen_files"])
+        for fnd, cnt in known:
+            C.log(f"KNOWN-FINDING: property={pid} {fnd['id']}: {fnd['what']} ({cnt} occurrences)")
+        for v in viols[:10]:
+            C.log(f"VIOLATION property={pid} replay={v['replay']}")
+            C.log(f"   predicate {v['pred']} failed at scenario {v['sc']} event {v['n']}; facts {v['facts']}")
+        cov = {"states": states, "transitions": transitions, "traces_validated_against_impl": res["scenarios"],
+               "events_judged": res["events"], "evaluations": res["scenarios"],
+               "distinct_nontrivial": len({json.dumps([s["cfg"], s["steps"]], sort_keys=True) for s in scens}),
+               "rule": "every history of <= 3 (quick) / 4 (thorough) operations over the message alphabet of MCModes.tla "
+                       "(record lines, empty chunk, chunk without line ending, the single bytes F and S, a chunk longer "
+                       "than the buffer; flush) with and without size rotation, plus seeded random histories with "
+                       "single bytes of every value and chunks up to 300 bytes; each executed under "
+                       f"{len(C15_MODES)} write modes and compared",
+               "samples": C.sample_traces(res["traces"], k=2, maxev=8),
+               "model_checking_runs": mc_stats, "asis_model_violations": asis_violated,
+               "histories_from_spec": len(reps), "scenarios_from_spec": n_model, "monitor": "MonC15.tla",
+               "monitor_counters": res["counts"], "predicate_failures": len(res["bads"]),
+               "known_findings_hit": [{"id": f["id"], "count": c} for f, c in known], "exhaustive": False,
+               "harness_build_s": round(build_s, 1)}
+        C.write_evidence(pid, tier, seed, "model_checking", cov,
+                         A_COMMON + ["forced rotations are outside C15's quantifier (in async mode trigger_rotation "
+                                     "overtakes queued messages; Modes.tla documents this)"], time.time() - t0, len(viols))
+        return 1 if viols else 0
+    finally:
+        shutil.rmtree(wd, ignore_errors=True)
+
+
+REGISTRY = {"C01": C01, "C06": C06, "C07": C07, "C08": C08, "C09": C09, "C15": C15, "C18": C18}
 MONITOR = {}
 EXECUTOR = {}
